@@ -7,6 +7,7 @@ import (
 	"flag"
 	"fmt"
 	"math"
+	"sort"
 	"strings"
 
 	"github.com/benoitkugler/webrender/svg"
@@ -77,7 +78,7 @@ type svgScn struct {
 		Ry   int     `json:"ry"`
 		Ops  []svgOp `json:"ops"`
 	} `json:"outline"`
-	Want   struct {
+	Want struct {
 		Sx4 int `json:"sx4"`
 		Sy4 int `json:"sy4"`
 		Tx4 int `json:"tx4"`
@@ -639,7 +640,7 @@ func c18Shape(s *svgScn, line []byte, out *drv.Out) {
 
 // ---------------------------------------------------------------- reference graphs (SvgRefs.tla)
 
-func init() { commands["c18refs"] = c18RefsMain }
+func init() { commands["c18refs"] = c18RefsMain; commands["c18pair"] = c18PairMain }
 
 type refScn struct {
 	Kind   string  `json:"kind"`
@@ -650,6 +651,80 @@ type refScn struct {
 }
 
 var c18Kinds = "use,gradient,pattern,clip,mask,marker"
+
+// c18pair: two instances of one definition (SvgRefs.tla, PairInit): the calls recorded for [a b] must be the calls for
+// [a] followed by the calls for [b] (an instance does not change the definition it uses).
+func c18PairMain(args []string) int {
+	attrs := map[string]string{"plain": ``, "sized": ` width="40" height="20"`, "moved": ` x="7" y="3"`, "sized-moved": ` x="5" y="5" width="10" height="30"`, "wide": ` width="100"`}
+	targets := map[string]string{
+		"symbol":       `<symbol id="d" viewBox="0 0 10 10"><rect width="10" height="10"/><circle cx="5" cy="5" r="2"/></symbol>`,
+		"symbol-sized": `<symbol id="d" viewBox="0 0 10 10" width="8" height="8" preserveAspectRatio="xMinYMax slice"><rect width="10" height="10"/></symbol>`,
+		"svg":          `<svg id="d" viewBox="0 0 10 10"><rect width="10" height="10"/></svg>`,
+		"g":            `<g id="d"><rect width="10" height="10"/><path d="M0 0 L3 4"/></g>`,
+	}
+	return drv.Main("c18pair", args, nil, func(line []byte, out *drv.Out) {
+		var s struct {
+			Target string `json:"target"`
+			A      string `json:"a"`
+			B      string `json:"b"`
+		}
+		if err := json.Unmarshal(line, &s); err != nil {
+			out.Fatal("bad scenario: " + err.Error())
+			return
+		}
+		def, okT := targets[s.Target]
+		ua, okA := attrs[s.A]
+		ub, okB := attrs[s.B]
+		if !okT || !okA || !okB {
+			out.Fatal("unknown pair scenario " + string(line))
+			return
+		}
+		ops := func(body string) ([]string, string, error) {
+			src := `<svg xmlns="http://www.w3.org/2000/svg" width="60" height="60"><defs>` + def + `</defs>` + body + `</svg>`
+			doc, err := drawSVG(src, 60, 60)
+			if err != nil {
+				return nil, src, err
+			}
+			var o []string
+			for _, e := range doc.Evs {
+				b, _ := json.Marshal([]interface{}{e.Op, e.N, e.B, e.D})
+				o = append(o, string(b))
+			}
+			return o, src, nil
+		}
+		useA, useB := `<use href="#d"`+ua+`/>`, `<use href="#d"`+ub+`/>`
+		ab, src, err := ops(useA + useB)
+		if err != nil {
+			out.Disagree("refs:pair:rejected", fmt.Sprintf("%s rejected: %v", src, err), map[string]interface{}{"svg": src})
+			return
+		}
+		ba, src2, err := ops(useB + useA)
+		if err != nil {
+			out.Disagree("refs:pair:rejected", fmt.Sprintf("%s rejected: %v", src2, err), map[string]interface{}{"svg": src2})
+			return
+		}
+		out.Count("pairs")
+		// an instance draws what its own <use> and the definition say: the two orders give the same calls up to order
+		x, y := append([]string{}, ab...), append([]string{}, ba...)
+		sort.Strings(x)
+		sort.Strings(y)
+		if strings.Join(x, "\n") != strings.Join(y, "\n") {
+			k := 0
+			for k < len(x) && k < len(y) && x[k] == y[k] {
+				k++
+			}
+			g, w := "(end)", "(end)"
+			if k < len(x) {
+				g = x[k]
+			}
+			if k < len(y) {
+				w = y[k]
+			}
+			out.Disagree("refs:pair:instances-not-independent:"+s.Target, fmt.Sprintf("%s draws other calls than the same two instances in the other order (first difference of the sorted calls: %s / %s)", src, g, w),
+				map[string]interface{}{"svg": src, "ab": ab, "ba": ba})
+		}
+	})
+}
 
 func c18RefsMain(args []string) int {
 	return drv.Main("c18refs", args, func(fs *flag.FlagSet) { fs.StringVar(&c18Kinds, "kinds", c18Kinds, "reference kinds") }, func(line []byte, out *drv.Out) {
